@@ -18,6 +18,8 @@ def run_variant(v, known):
             src = open(path).read()
         n = src.count(e['old'])
         want = e.get('count', 1)
+        if want == 'any':
+            want = n if n >= 1 else 1
         if n != want:
             return dict(id=v['id'], outcome='skipped', detail='old text occurs %d times (want %d) in %s' % (n, want, e['file']))
         overlay[path] = src.replace(e['old'], e['new'])
